@@ -66,6 +66,30 @@ def realise(kind, n, edges, order):
                 if not body:
                     body = " x : INT;"
                 decls.append("TYPE N%d : STRUCT%s END_STRUCT; END_TYPE" % (i, body))
+    if kind == "enumalias":
+        # enumeration alias chains used by variables of one program: leaf = enumeration, one successor = alias of it,
+        # more = structure; every alias that reaches an enumeration gets a variable initialised with one of its values
+        decls = []
+        for i in order:
+            if len(succ[i]) == 0:
+                decls.append("TYPE N%d : (n%d_a, n%d_b); END_TYPE" % (i, i, i))
+            elif len(succ[i]) == 1:
+                decls.append("TYPE N%d : N%d; END_TYPE" % (i, succ[i][0]))
+            else:
+                body = "".join(" e%d_%d : N%d;" % (i, k, j) for k, j in enumerate(succ[i]))
+                decls.append("TYPE N%d : STRUCT%s END_STRUCT; END_TYPE" % (i, body))
+        vars_ = []
+        for i in range(n):
+            seen = set()
+            j = i
+            while len(succ[j]) == 1 and j not in seen:
+                seen.add(j)
+                j = succ[j][0]
+            if len(succ[j]) == 0:
+                vars_.append(" v%d : N%d := n%d_a;" % (i, i, j))
+                vars_.append(" w%d : N%d := n%d_b;" % (i, i, j))
+        if vars_:
+            decls.append("PROGRAM user VAR%s END_VAR END_PROGRAM" % "".join(vars_))
     return "\n".join(decls)
 
 
@@ -185,7 +209,7 @@ def shard(shard_i, nshards, payload):
 
 def run(tier, seed):
     core.build_probe()
-    kinds = ["fb", "struct", "mixed", "array"]
+    kinds = ["fb", "struct", "mixed", "array", "enumalias"]
     if tier == "quick":
         payload = {"seed": seed, "kinds": kinds, "exhaustive_n": [1, 2, 3], "n_sample4": 2000, "n_random": 400}
     else:
